@@ -235,7 +235,14 @@ def report_oracle(ctx, exe, stream, dis, seen):
 def run(ctx):
     ctx.base_trust([
         "C09 model (lean/GeosModel/Model/WKB/*.lean) is hand-written from WKBWriter.cpp / WKBReader.cpp / ByteOrderValues.cpp / "
-        "ByteOrderDataInStream.h and the geometry constructors' validateConstruction; tied by byte-exact correspondence only (no translator)",
+        "ByteOrderDataInStream.h and the geometry constructors' validateConstruction; its stream / loop / constructor structure is tied by "
+        "byte-exact correspondence only; its word-level decisions (type code, type word of both flavours, SRID rule, output ordinates, "
+        "decoding of the type word, reader dispatch, minMemSize units) are regenerated from the source by translate/cxx2lean.py on every "
+        "run and proved equal to the model's (Props/C09Gen.lean)",
+        "translator (translate/cxx2lean.py + translate/cxx_ext.py, spec wkb_words): the C++ fragment semantics it implements (int = Int "
+        "without overflow, uint32_t/uint64_t = Nat, `|`/`&` on int = 32-bit two's complement, io::OrdinateSet as the pair (hasZ, hasM), "
+        "writeInt(v) = append v to the word list, `#if DEBUG_*` blocks inactive); that readGeometry reads the SRID word exactly when "
+        "hasSRID is checked textually by the spec's prepare()",
         "GTree abstraction: one SRID per top-level geometry (SRIDs of curve-polygon rings / compound sections not represented); every "
         "empty curve polygon is one token 'U 0' (its Z/M flags and shell type are not compared); hasZ/hasM as reported by the sequences "
         "(sequences created with explicit dimension flags)",
@@ -246,7 +253,9 @@ def run(ctx):
         "without FMA contraction), compared on targeted mutations of arc coordinates in wkb-read",
         "a SIGSEGV/SIGBUS inside the library is caught by the harness and reported as result 'crash', which the model never predicts",
     ])
-    proved = ctx.prove(PROPS, extra_targets=(DRV,))
+    # translator tie: the word-level decisions of WKBWriter / WKBReader are regenerated from the current source and proved equal
+    # to the pieces of the hand-written model (Props/C09Gen.lean); the byte-exact streams below exercise the same functions
+    proved = ctx.prove_generated([("wkb_words", "GeosModel/Generated/WkbWords.lean", "GeosModel.Props.C09Gen")], PROPS, extra_targets=(DRV,))
     ok, out = verif.build_geos("rel")
     if not ok:
         ctx.violation("GEOS does not build with -DGEOS_VERIF", {"kind": "build-failure", "log": out[-3000:]}, nofail=True)
